@@ -7,7 +7,11 @@ var serStub = []string{"disk: simfs pass-through on tmpfs (numbered events, cras
 func init() {
 	reg(&checkSpec{
 		ID: "C13", Harness: "ser", Inst: []string{"tsdb", "pkg/file", "pkg/limiter", "pkg/rhh"}, Level: "fault_enumeration",
-		Classes: []string{"C13:", "deadlock", "busy-wait"}, // C13:crash-damaged-returned-series = a series whose creation had returned before the cut lost or changed key/id
+		// the first series segment of a partition holds 4 MiB: no simulated history ever rolls a segment over.  With
+		// 256 B (then 512 B, 1 KiB, ...) segments roll after half a dozen entries, so roll-over, the `.initializing`
+		// rename, multi-segment recovery of the id sequence and index compaction over several segments are exercised.
+		Knobs:   map[string][2]string{"tsdb/series_segment.go": {"const min = 22 // 4MB", "const min = 8 // 256 B (verif knob)"}},
+		Classes: []string{"C13:", "deadlock", "busy-wait", "crash", "panic"}, // C13:crash-damaged-returned-series = a series whose creation had returned before the cut lost or changed key/id
 		Cfgs: []cfgSpec{
 			{Name: "crash-single-client", Cfg: "clients=1,imgcap=8,cutden=24", Gating: true, Share: 3},
 			{Name: "crash-concurrent", Cfg: "clients=3,imgcap=6,cutden=48", Gating: true, Share: 2},
